@@ -65,6 +65,21 @@ fn scenario(sc: &Value) -> Value {
     let target_done = Arc::new(std::sync::atomic::AtomicBool::new(false));
     verif::set_actor(0);
     verif::emit("h.scenario", &[("id", id), ("streams", n as i64)]);
+    // stalls: hold a thread for a while at a hook point (between queueing a route and waking the routing thread,
+    // in the routing thread between forwarding a message / installing a route and its next step)
+    let stalls: std::collections::HashMap<String, u64> = sc["stalls"]
+        .as_object()
+        .map(|m| m.iter().filter_map(|(k, v)| v.as_u64().map(|u| (k.clone(), u))).collect())
+        .unwrap_or_default();
+    if stalls.is_empty() {
+        verif::set_gate_hook(None);
+    } else {
+        verif::set_gate_hook(Some(Box::new(move |site, _| {
+            if let Some(us) = stalls.get(site) {
+                std::thread::sleep(std::time::Duration::from_micros(*us));
+            }
+        })));
+    }
     let results: Arc<Mutex<Vec<Value>>> = Arc::new(Mutex::new(Vec::new()));
     let mut threads = Vec::new();
     for s in 1..=n {
@@ -216,6 +231,7 @@ fn scenario(sc: &Value) -> Value {
             hang = true;
         }
     }
+    verif::set_gate_hook(None);
     verif::emit("h.scenario.end", &[("id", id)]);
     let r = results.lock().unwrap().clone();
     json!({"id": id, "hang": hang, "streams": r})
